@@ -73,6 +73,7 @@ class Harness:
         self.zombies = []
         self.next_oid = 0
         self.watched = set()
+        self.pending_problems = []
 
     # ------------------------------------------------------------------ real side
     def arrays_of(self, t):
@@ -123,10 +124,13 @@ class Harness:
                 ops.append(("DEL", x))
                 if view == "T":
                     ops.append(("PICKLE", x))
+                if view == "I":
+                    ops.append(("NEXT", x))
                 for y in SLOTS:
                     if y != x:
                         ops.append(("ALIAS", y, x))
                         if view == "T":
+                            ops.append(("ITER", y, x))
                             ops.append(("STRUCT", y, x))
                             if self.objs[oid].kind in "sd":
                                 ops.append(("FEED", y, x, self.objs[oid].backend))
@@ -168,6 +172,29 @@ class Harness:
             self.drop(x)
             self.slots[x] = (oid, "S")
             self.real[x] = val
+        elif name == "ITER":
+            # an in-flight reader: a partially consumed items() iterator is a user of the result
+            _, x, y = op
+            it = self.real[y].items()
+            oid = self.slots[y][0]
+            first = next(it, None)
+            self.drop(x)
+            if first is not None:
+                self.slots[x] = (oid, "I")
+                self.real[x] = [it, [first]]
+            # an iterator that is already exhausted has released the tensor: it is not a user any more
+        elif name == "NEXT":
+            it, seen = self.real[op[1]]
+            nxt = next(it, None)
+            if nxt is not None:
+                seen.append(nxt)
+                self.check_iter(op[1])
+            else:
+                self.check_iter(op[1])
+                # exhausted: the generator frame is gone and with it its reference - for every name bound to it
+                shared = self.real[op[1]]
+                for s2 in [k for k, v in self.real.items() if v is shared]:
+                    self.drop(s2)
         elif name == "READ":
             pass  # every state check reads every live object
         elif name == "PICKLE":
@@ -201,6 +228,8 @@ class Harness:
     def check(self, after_gc, problems):
         from .rt import raw_image
 
+        problems.extend(self.pending_problems)
+        self.pending_problems = []
         n = self.shim.verif_double_frees()
         if n != self.double_frees_seen:
             addr = self.shim.verif_last_double_free()
@@ -223,6 +252,13 @@ class Harness:
             o = self.objs[oid]
             if any(k == "freed-while-referenced" for k, _ in problems):
                 break
+            if view == "I":
+                seen = self.real[s][1]
+                want = self.expected_items(o)[: len(seen)]
+                if seen != want:
+                    problems.append(("read-differs", f"slot {s}: an in-flight items() iterator yielded {seen}, the "
+                                                     f"result holds {want}"))
+                continue
             t = self.real[s] if view == "T" else self.Tensor(self.real[s])
             if raw_image(t) != o.image:
                 problems.append(("read-differs", f"slot {s}: values read back differ from the result"))
@@ -249,6 +285,35 @@ class Harness:
             for o in keep:
                 for _p, _n, _c, handle in o.addrs:
                     self.shim.verif_forget(handle)
+
+    def check_iter(self, slot):
+        oid, _ = self.slots[slot]
+        seen = self.real[slot][1]
+        want = self.expected_items(self.objs[oid])[: len(seen)]
+        if seen != want:
+            self.pending_problems.append(("read-differs", f"slot {slot}: an in-flight items() iterator yielded "
+                                                          f"{seen}, the result holds {want}"))
+
+    def expected_items(self, o):
+        """(coordinate, value) pairs in storage order, decoded from the recorded raw image."""
+        dims, modes, ordering, levels, vals = o.image
+        order = len(dims)
+        lvl_dims = [dims[k] for k in ordering]
+        prefixes = [((), 0)]
+        for l in range(order):
+            if levels[l] is None:
+                d = lvl_dims[l]
+                prefixes = [(p + (x,), q * d + x) for p, q in prefixes for x in range(d)]
+            else:
+                pos, crd = levels[l]
+                prefixes = [(p + (crd[k],), k) for p, q in prefixes for k in range(pos[q], pos[q + 1])]
+        out = []
+        for p, q in prefixes:
+            c = [0] * order
+            for lev, d in enumerate(ordering):
+                c[d] = p[lev]
+            out.append((tuple(c), vals[q]))
+        return out
 
     def canonical(self):
         ren = {}
